@@ -244,6 +244,9 @@ func retryTimeouts(out []*SolveResult, timeoutS int) {
 			continue
 		}
 		if r != nil && r.Status == "timeout" {
+			if NoRetry != nil && r.Obl != nil && NoRetry(r.Obl.Name) {
+				continue
+			}
 			idx = append(idx, i)
 		}
 	}
